@@ -10,6 +10,13 @@ for id in $ids; do
   rc=$(echo "$res" | grep -o "exit=[0-9]*" | tail -1)
   cls=$(echo "$res" | grep "class=" | head -1 | sed 's/^ *//' | cut -c1-200)
   case "$rc" in exit=1) v="caught";; exit=0) v="MISSED";; *) v="harness ($rc)";; esac
+  if [ "$v" = MISSED ]; then
+    # a seed whose demonstration lies outside what its own property states may name the property that does state it (meta.json: also_try)
+    for other in $(python3 -c "import json; print(' '.join(json.load(open('$d/meta.json')).get('also_try', [])))" 2>/dev/null); do
+      res2=$(./tools/try_seed.sh $PWD/$d/patch.diff $other quick 2>&1)
+      if echo "$res2" | grep -q "exit=1"; then v="caught by $other (not by $prop: see meta.json)"; cls=$(echo "$res2" | grep "class=" | head -1 | sed 's/^ *//' | cut -c1-200); break; fi
+    done
+  fi
   python3 - "$d/result.json" "$id" "$prop" "$v" "$cls" "$(git rev-parse --short HEAD)" <<'PY'
 import json,sys,datetime
 p,id_,prop,v,cls,head=sys.argv[1:]
